@@ -227,7 +227,8 @@ func (interp *Interpreter) gta(root *node, rpath, importPath, pkgName string) ([
 			}
 			// Try to import a binary package first, or a source package
 			var pkgName string
-			if packageName := path.Base(ipath); path.Dir(ipath) == packageName {
+			if packageName := path.Base(ipath); path.Dir(ipath) == packageName && interp.binPkg[ipath] == nil && interp.binPkg[packageName] != nil {
+				// "name/name", as in the keys of Exports, also denotes the binary package "name".
 				ipath = packageName
 			}
 			if pkg := interp.binPkg[ipath]; pkg != nil {
